@@ -22,6 +22,48 @@ HISTORY = {
     "C13-c": "round 3 (blind): caught on the first run by the native validation at extreme weight scales (same class as C13-b).",
     "C04-a": "first evaluation design: Engine M alone reported it but its native replay scenario did not cover LostPatience; the native scenario fitmap now enumerates all 13 termination reasons.",
 }
+SUMMARY = {
+    "C01-a": ("try_svd(.., eps = user threshold, max_niter) instead of svd(): the truncation threshold becomes the SVD's convergence tolerance", "a user epsilon well above machine epsilon"),
+    "C01-b": ("hand-rolled truncated solve without the `else row = 0`: discarded singular directions pass u^T y through", "a singular value at or below the threshold (rank-deficient / large user epsilon)"),
+    "C02-a": ("MRHS best_fit computed as Y_w - residuals (weighted) instead of Phi*C", "multiple right-hand sides and non-unit weights"),
+    "C02-b": ("vector-API observations() multiplies by the weights held at that moment; build() weights again", "weights() called before observations() with non-unit weights"),
+    "C02-c": ("residuals cached as Y_w - U(U^T Y_w) instead of Y_w - Phi_w C", "a truncated singular value (rank-deficient basis or large epsilon)"),
+    "C03-a": ("Jacobian weights applied after the contraction with row = idx / ncols", "non-unit weights and >= 2 right-hand sides"),
+    "C03-b": ("MRHS Jacobian helper accumulates with ger(beta = 0): only the last non-zero derivative column survives", "mrhs flavour and a parameter shared by >= 2 basis functions"),
+    "C04-a": ("was_successful re-implemented as a deny-list that forgets LostPatience", "the optimizer exhausting its evaluation budget"),
+    "C04-b": ("'recall previous' cache: re-applying the previous parameters restores the cache without telling the model", "A -> B -> A parameter history (termination right after a rejected trial step)"),
+    "C04-c": ("residuals cached as Y_w - U(U^T Y_w): objective no longer belongs to the exposed coefficients", "a truncated singular value"),
+    "C06-a": ("statistics count only non-zero weights as observations", "an exactly-zero weight and fit_with_statistics"),
+    "C06-b": ("Jacobian weights applied through a zip that stops after the first column", "mrhs with >= 2 columns and non-unit weights"),
+    "C06-c": ("under-determination check and dof use the number of non-zero weights", "an exactly-zero weight"),
+    "C07-a": ("Jacobian blocks written with `offset = block_len` instead of `+=`", "three or more right-hand sides"),
+    "C07-b": ("truncation zeroes `ut_y[j]` by linear index: only the first right-hand side is truncated", ">= 2 right-hand sides and a truncated singular value"),
+    "C08-a": ("finiteness filter applied to Phi before the weights", "non-finite (or overflowing) weights and >= 2 basis functions"),
+    "C08-b": ("finiteness test replaced by is_finite(camax()): a NaN followed by another entry is forgotten", "a NaN anywhere but the last entry"),
+    "C09-a": ("set_params returns early on a failing eval WITHOUT clearing the cache", "an eval failure after an earlier successful update"),
+    "C09-b": ("Jacobian column results combined with Result::or instead of and", ">= 2 nonlinear parameters, some but not all derivatives failing"),
+    "C10-a": ("Jacobian column skipped (left uninitialised) when W D_k C is exactly zero", "a parameter whose weighted derivative times the coefficients vanishes"),
+    "C10-b": ("set_params returns early when the new parameters equal the model's, even if the cache is empty", "a rejected update followed by re-applying the previous parameters"),
+    "C11-a": ("parallel Jacobian applies the weights after the projection", "parallel flavour and non-uniform weights"),
+    "C11-b": ("parallel Jacobian splits right-hand sides with par_chunks_exact_mut: the trailing block is skipped", "S not divisible by ceil(S / threads)"),
+    "C11-c": ("parallel Jacobian hands out column blocks with par_chunks_exact_mut: trailing columns skipped", "P >= 2*threads with a remainder (e.g. 5 parameters, 2 threads)"),
+    "C12-a": ("dof via checked_sub(..).ok_or(Underdetermined): the case N = M + P slips through", "exactly as many samples as parameters"),
+    "C12-b": ("fit_with_statistics lost the success check after a refactoring", "a failed fit that still has coefficients (e.g. LostPatience)"),
+    "C13-a": ("correlation normalisation floored: sqrt(max(C_ii C_jj, eps))", "variances with product below machine epsilon"),
+    "C13-b": ("covariance through pseudo_inverse(eps) (absolute cut-off) instead of try_inverse", "H small in absolute terms (tiny amplitudes / weights)"),
+    "C13-c": ("same mechanism as C13-b, chosen independently", "H small in absolute terms"),
+    "C14-a": ("one-sided quantile -ppf(1-p) for p >= 0.9999", "probabilities very close to 1"),
+    "C14-b": ("dof handed to the quantile is N - M (field `degrees_of_freedom` removed)", "few degrees of freedom"),
+    "C15-a": ("independent_variable() no longer finalises the pending function", "function -> x -> partial_deriv call order"),
+    "C15-b": ("unused-parameter check skipped when the (un-sorted, dedup'ed) key count reaches the parameter count", ">= 3 parameters, one unused, another referenced by two non-adjacent functions"),
+    "C16-a": ("arity-9 macro instantiation swaps argument indices 5 and 6", "a 9-parameter function not symmetric in those arguments"),
+    "C16-b": ("'contiguous block' fast path passes params[first..=last] in model order (checks first/last only)", "arity >= 3 with endpoints n-1 apart and inner parameters permuted / outside"),
+    "C16-c": ("same mechanism as C16-b, chosen independently", "arity >= 3, non-ascending run"),
+    "C17-a": ("derivative index guard `>` instead of `>=`", "index exactly equal to the parameter count"),
+    "C17-b": ("derivative column filled through a zip: a too long output is silently truncated", "a derivative returning more elements than samples"),
+    "C18-a": ("emptiness check uses the row count only", "observation matrix with rows but zero columns"),
+    "C18-b": ("weights length compared with Y.len() (rows x columns)", "mrhs with >= 2 columns and weights"),
+}
 rows = []
 for name in sorted(os.listdir(os.path.join(HERE, "seeded"))):
     d = os.path.join(HERE, "seeded", name)
@@ -59,6 +101,8 @@ for name in sorted(os.listdir(os.path.join(HERE, "seeded"))):
             "ran": ["tools/confirm_seed.sh <worktree> <agent output>  (cargo test --workspace --offline with the change; demo with / without the change)",
                     f"VERIF_REPO=<worktree> ./check {name.split('-')[0]} quick"],
         })
+    if name in SUMMARY:
+        meta["what_it_does"], meta["needs_to_manifest"] = SUMMARY[name]
     if name in HISTORY:
         meta["history"] = HISTORY[name]
     notes = os.path.join(d, "notes.md")
